@@ -21,17 +21,17 @@ TReset == IsEvent("Reset") /\ tid' = Rec.tid
 Binaryish == {"bin", "binh", "zip"}
 TForm ==
     /\ IsEvent("Form") /\ UNCHANGED tid
-    /\ Env("value is canonical LLSD", IsLLSD(Rec.v) /\ Canon(Rec.v) = Rec.v)
+    /\ Env("value is canonical LLSD", IsLLSD(Rec.v) /\ Same(Canon(Rec.v), Rec.v))
     /\ Env("known form", Rec.form \in Binaryish \cup {"not", "xml"})
     /\ Chk(Rec.form \o ".format-ok", Rec.st = "ok")
     /\ Chk(Rec.form \o ".parse-ok", Rec.st = "ok" => Rec.pst = "ok")
     \* the value that comes back is the value that went in: same structure, same LLSD types, same instants
-    /\ Chk(Rec.form \o ".roundtrip", (Rec.st = "ok" /\ Rec.pst = "ok") => Rec.r = Rec.v)
+    /\ Chk(Rec.form \o ".roundtrip", (Rec.st = "ok" /\ Rec.pst = "ok") => Same(Rec.r, Rec.v))
     \* the bytes are a document of the format and denote the value
-    /\ Chk(Rec.form \o ".denotes", (Rec.st = "ok" /\ Rec.form \in Binaryish) => DenotesBin(Rec.out, Rec.dt) = Rec.v)
+    /\ Chk(Rec.form \o ".denotes", (Rec.st = "ok" /\ Rec.form \in Binaryish) => Same(DenotesBin(Rec.out, Rec.dt), Rec.v))
     \* with_header=True / False means what it says (the zipped form's payload is not constrained by the property)
     /\ Chk(Rec.form \o ".header", (Rec.st = "ok" /\ Rec.form \in {"bin", "binh"}) => ((Rec.form = "binh") <=> (BodyStart(Rec.out) > 1)))
-    /\ Chk("not.denotes", (Rec.st = "ok" /\ Rec.form = "not") => DenotesNot(Rec.out, Rec.rt) = Rec.v)
+    /\ Chk("not.denotes", (Rec.st = "ok" /\ Rec.form = "not") => Same(DenotesNot(Rec.out, Rec.rt), Rec.v))
     /\ Chk("not.no-raw-newline", (Rec.st = "ok" /\ Rec.form = "not") => NoRawNewline(Rec.out))
 
 TNext == TReset \/ TForm
